@@ -540,7 +540,7 @@ Proof.
   unfold parse_noop. rewrite He. cbn [bind]. rewrite edge_source_unknown by assumption. reflexivity.
 Qed.
 
-Theorem detect_edge_from_unknown_row fuel wb dm d t0 p r s bt ghost e0 more :
+Theorem detect_edge_from_unknown_row_partial fuel wb dm d t0 p r s bt ghost e0 more :
   compile fuel wb dm = Ok d ->
   nth_error (rows_of wb t0) p = Some r ->
   (is_node_type (r_type r) = true \/ r_type r = THardExit \/ r_type r = TLooseExit \/ r_type r = TNoOp) ->
@@ -608,7 +608,7 @@ Proof.
     unfold row_node; rewrite Hrec; reflexivity.
 Qed.
 
-Theorem detect_uuid_conflict fuel wb dm d t0 p r s bt u g l old :
+Theorem detect_uuid_conflict_partial fuel wb dm d t0 p r s bt u g l old :
   compile fuel wb dm = Ok d ->
   nth_error (rows_of wb t0) p = Some r -> (r_type r = TAddGroup \/ r_type r = TRemoveGroup) ->
   evaluated_at fuel wb dm t0 p s bt ->
@@ -745,7 +745,7 @@ Proof.
   intros H. apply nth_error_None. rewrite firstn_length. lia.
 Qed.
 
-Theorem detect_unterminated_block fuel wb dm t0 p t1 q1 s1 bt1 o1 :
+Theorem detect_unterminated_block_partial fuel wb dm t0 p t1 q1 s1 bt1 o1 :
   (* the first read at or after position p of sheet t0 happens inside a block *)
   compile_trap fuel wb dm t0 p true sel_read = Err (TTrap t1 q1 s1 bt1 o1) ->
   bt1 <> BRoot ->
